@@ -4,6 +4,7 @@ package query
 //verif:pkg lib/query
 //verif:setup VerifC16PosSetup
 //verif:harness VerifC16PositionValues mode=bv tier=quick
+//verif:harness VerifC16ShadowedCursor mode=bv tier=quick
 
 import (
 	"github.com/mithrandie/csvq/lib/parser"
@@ -33,8 +34,9 @@ func VerifC16PositionValues() {
 	menu := []value.Primary{
 		value.NewFloat(1e30), value.NewFloat(-1e30), value.NewString("1e30"), value.NewString("-1e30"),
 		value.NewFloat(9.3e18), value.NewFloat(1.0), value.NewString(" 2 "), value.NewInteger(9223372036854775807),
+		value.NewInteger(2),
 	}
-	sign := []int{1, -1, 1, -1, 1, 0, 0, 1} // where the position lies: beyond the end, before the start, inside
+	sign := []int{1, -1, 1, -1, 1, 0, 0, 1, 0} // where the position lies: beyond the end, before the start, inside
 	mi := verifChoice("offset", len(menu))
 	verifVar(scope, "pos", menu[mi])
 	form := verifChoice("form", 2)
@@ -44,6 +46,13 @@ func VerifC16PositionValues() {
 		verifAssert("a refused position is an ordinary error", !fatal)
 		verifReach("refused")
 		return
+	}
+	// the offset expression's own value must survive the fetch (and later allocations)
+	verifC14Churn()
+	after, _ := scope.GetVariable(parser.Variable{Name: "pos"})
+	if mi >= 7 {
+		ai, ok := after.(*value.Integer)
+		verifAssert("the offset variable is unchanged by the fetch", ok && ai.Raw() == []int64{9223372036854775807, 2}[mi-7])
 	}
 	if sign[mi] > 0 {
 		_, err = proc.Execute(verifCtx(), verifC16PosPrior)
@@ -59,5 +68,37 @@ func VerifC16PositionValues() {
 		verifAssert("a position far before the first row leaves the cursor before the first row", ok && i.Raw() == 1)
 	}
 	verifObserve("offset", int64(mi))
+	verifReach("end")
+}
+
+var verifC16Shadow []parser.Statement
+
+// A cursor declared in an inner block shadows an open outer cursor of the same name: while the inner
+// one is not open, FETCH on that name is an error - it never falls through to the outer cursor, whose
+// position stays where it was.
+func VerifC16ShadowedCursor() {
+	tx := verifNewTx()
+	tx.Flags.Quiet = true
+	proc := NewProcessor(tx)
+	scope := proc.ReferenceScope
+	verifTempTable(scope, "t", []string{"id"}, [][]value.Primary{{value.NewInteger(1)}, {value.NewInteger(2)}, {value.NewInteger(3)}})
+	closedAgain := verifChoice("inner-was-opened-and-closed", 2) == 1
+	src := "declare c cursor for select id from t; open c; var @i; var @j := 0; fetch c into @i; if 1 = 1 then declare c cursor for select id from t where id > 1; "
+	if closedAgain {
+		src += "open c; close c; "
+	}
+	src += "fetch c into @j; end if;"
+	_, err := proc.Execute(verifCtx(), verifParse(src))
+	verifAssert("FETCH on the closed inner cursor is an error", err != nil)
+	if err != nil {
+		_, fatal := err.(*FatalError)
+		verifAssert("an ordinary error", !fatal)
+	}
+	_, err = proc.Execute(verifCtx(), verifParse("fetch c into @i;"))
+	verifAssert("the outer cursor is still usable", err == nil)
+	got, _ := scope.GetVariable(parser.Variable{Name: "i"})
+	i, ok := got.(*value.Integer)
+	verifAssert("the outer cursor did not move while it was shadowed", ok && i.Raw() == 2)
+	verifObserveBool("closed-again", closedAgain)
 	verifReach("end")
 }
